@@ -420,6 +420,44 @@ def r10h(run):
                   node=n.ast)
 
 
+def r10i(run, funcs):
+    """after an error was recorded (collecting mode falls through) the owner does not finish with a made-up result: an
+    early `return {}` / `[]` right after handle_error skips the rest of the work, so the collected error names only the
+    first failure"""
+    total = 0
+    for f, fa, n, c in he_sites(funcs):
+        if is_forced(c):
+            continue
+        total += 1
+        # straight-line successors of the call: the statements reached without passing a test or a loop head
+        cur, seen = n, set()
+        bad = None
+        while True:
+            nxt = [s_ for s_, k in cur.succ if k == N]
+            if len(nxt) != 1 or nxt[0] in seen:
+                break
+            cur = nxt[0]
+            seen.add(cur)
+            if cur.kind in ("test", "iter", "exit", "handler"):
+                break
+            if cur.kind == "stmt" and isinstance(cur.ast, ast.Return):
+                v = cur.ast.value
+                empty = isinstance(v, (ast.Dict, ast.List, ast.Tuple, ast.Set)) and not (
+                    v.keys if isinstance(v, ast.Dict) else v.elts)
+                empty = empty or (isinstance(v, ast.Call) and unparse(v.func) in ("dict", "list", "tuple", "set") and not v.args
+                                  and not v.keywords)
+                if empty:
+                    bad = cur
+                break
+        run.check("R10i", f, f"`{unparse(c)[:50]}` is not followed by a made-up empty result", bad is None,
+                  construct=f"empty result returned right after a recorded error in {f.name}",
+                  message=f"{f.qualname}: after `{unparse(c)[:60]}` the function returns `{unparse(bad.ast.value) if bad else ''}`"
+                          f": with collect_errors the remaining items are never examined",
+                  necessity="the collected error no longer names every failing item (and fail-fast and collecting mode "
+                            "stop agreeing on what was examined)", node=bad.ast if bad else c)
+    run.floor("R10i", "collecting handle_error sites", total, 20)
+
+
 def r10g(run, rule="R10g"):
     """entering a route always opens a new layer: RuntimeContext.enter returns a freshly constructed context on every
     path (error isolation of combinator arguments, items and fields hangs on the layer being the caller's alone)"""
@@ -447,7 +485,7 @@ def r10g(run, rule="R10g"):
 
 
 def check(run):
-    run.rules_run += ["R10-policy", "R10a", "R10b", "R10c", "R10d", "R10e", "R10f", "R10g", "R10h"]
+    run.rules_run += ["R10-policy", "R10a", "R10b", "R10c", "R10d", "R10e", "R10f", "R10g", "R10h", "R10i"]
     run.explain("C10: the may-return model of handle_error is validated against its source; (R10a) at each of the "
                 "non-forced handle_error sites the code after the call does not read variables whose only binding "
                 "is the failed try body (stale/unbound), nor index past a fallen-through range check; (R10b) every "
@@ -465,6 +503,7 @@ def check(run):
     r10f(run)
     r10h(run)
     r10g(run)
+    r10i(run, funcs)
     # shared clauses that are necessary for C10 as well
     from . import c06, c07
     pd, A, B = c06.siblings(run)
